@@ -142,6 +142,28 @@ def forge_other_encoding(cfg, s, tx, real_p, session_key):
     return out
 
 
+def forge_other_udp_port(cfg, s, tx, real_p, session_key):
+    """packets that are right in every field — ports, session id, next sequence id, connection signature of the client's REAL address,
+    session key where there is none — but arrive from another UDP port of the client's host: a connection belongs to the full address"""
+    from nintendo.nex import prudp
+    enc = prudp.PRUDPMessageSelector(s).select(cfg.version)
+    out = []
+    for ptype, flags, payload in [(2, 2 | 4 | 8, b"forged"), (3, 2 | 4, b""), (4, 2 | 4, b""), (2, 1, b"")]:
+        p = prudp.PRUDPPacket(ptype, flags)
+        p.version = real_p.version
+        p.source_type, p.source_port, p.dest_type, p.dest_port = real_p.source_type, real_p.source_port, real_p.dest_type, real_p.dest_port
+        p.session_id = real_p.session_id
+        p.packet_id = (real_p.packet_id + (0 if flags & 1 else 1)) & 0xFFFF
+        p.fragment_id, p.substream_id = 0, 0
+        p.payload = payload
+        try:
+            p.signature = enc.calc_packet_signature(p, session_key if not cfg.credentials else bytes(len(session_key)), enc.calc_connection_signature(tx.src))
+            out.append(("other-udp-port", ptype, flags, enc.encode(p)))
+        except Exception:
+            pass
+    return out
+
+
 def forge_unknown_peer_connects(cfg, s, real_connect):
     """a CONNECT from an address that never sent a SYN, signed with a cookie the server never handed out (none, zeros, another address's)"""
     from nintendo.nex import prudp
@@ -321,6 +343,9 @@ def make_setup(cfg, mode, plan_filter, seed, allow=None):
             pk = obs.decode(tx.data)
             if not pk:
                 return
+            if pk[0].type == 0 and not pk[0].flags & 1:
+                out._syn_bytes = tx.data
+                return
             if pk[0].type == 1 and not pk[0].flags & 1:
                 out._connect = pk[0]
                 return
@@ -329,6 +354,10 @@ def make_setup(cfg, mode, plan_filter, seed, allow=None):
             out._nth = getattr(out, "_nth", 0) + 1
             variant, nth = mode.split(":")[1], int(mode.split(":")[2])
             if out._nth != nth:
+                return
+            if variant == "syn":
+                # the client's own SYN again (a SYN involves nothing but the access key): an established connection is not its business
+                inj(tx.src, tx.dst, out._syn_bytes, D + EPS, ("forged", "connect-replay:syn", 0, 4, tx.n))
                 return
             enc = prudp.PRUDPMessageSelector(s).select(cfg.version)
             q = copy.copy(out._connect)
@@ -408,6 +437,9 @@ def make_setup(cfg, mode, plan_filter, seed, allow=None):
                 # forged acknowledgements of this very packet, sent back to its sender ahead of any genuine ack
                 for kind, fdata in forge_acks(cfg, s, tx, out.session_key, pk[0]):
                     inj(tx.dst, tx.src, fdata, rng.choice([EPS, 2 * D - EPS]), ("forged", kind, pk[0].type, 1, tx.n))
+            if pk and cfg.transport == "udp" and not pk[0].flags & 1 and pk[0].flags & 2 and pk[0].type == 2 and rng.random() < 0.5:
+                for kind, ptype, flags, fdata in forge_other_udp_port(cfg, s, tx, pk[0], out.session_key):
+                    inj((tx.src[0], tx.src[1] + 1 + rng.randrange(3)), tx.dst, fdata, D + rng.choice([-EPS, EPS]), ("forged", kind, ptype, flags, tx.n))
             if pk and rng.random() < 0.6:
                 for kind, ptype, flags, fdata in forge_variants(cfg, s, obs, tx, out.session_key, rng, pk[0]):
                     inj(tx.src, tx.dst, fdata, D + rng.choice([-EPS, EPS, 3 * EPS]), ("forged", kind, ptype, flags, tx.n))
@@ -492,7 +524,7 @@ def strict(cfg, desc):
     control state (v0 signs data only) but must never make a payload appear"""
     if is_d18(desc):
         return False
-    if desc[0] == "forged" and desc[1] in ("unknown-peer-connect", "other-encoding", "keyless-connect"):
+    if desc[0] == "forged" and desc[1] in ("unknown-peer-connect", "other-encoding", "keyless-connect", "other-udp-port"):
         return True          # "in every encoding a handshake packet with a wrong signature establishes nothing"
     if cfg.version != 0:
         return True
@@ -551,7 +583,7 @@ def work(args):
                 # the server answers a CONNECT of a known client with another CONNECT/ACK, as it does for a genuine retransmission
                 if src != ps.SERVER: return False
                 pk = obs.decode(data)
-                return bool(pk) and pk[0].type == 1 and bool(pk[0].flags & 1)
+                return bool(pk) and pk[0].type in (0, 1) and bool(pk[0].flags & 1)
             a, b = observe(ref), observe(att)
             # checkpoints contain timer counts that the extra acknowledgement does not touch; compared as they are
             diff = first_diff(a, b, skip) if att.injections else None
@@ -647,7 +679,7 @@ def run(ctx):
         jobs.append((n, dict(base, version=1, credentials=False), sd, "known-d18")); n += 1
     for creds in (True, False):
         jobs.append((n, dict(base, version=1, credentials=creds, ping_timeout=1.0), ctx.rng.getrandbits(32), "idle-trickle")); n += 1
-    for variant in ("identical", "session-id", "conn-sig", "both"):
+    for variant in ("identical", "session-id", "conn-sig", "both", "syn"):
         for creds in (True, False):
             for nth in ((1, 3) if quick else (1, 2, 3, 4)):
                 for version in ((1,) if quick else (1, 0)):
